@@ -7,7 +7,7 @@ IDS="$@"; [ -z "$IDS" ] && IDS=$(ls benign | grep -E '^C[0-9]+_[0-9]+\.diff$' | 
 mkdir -p .logs/benign
 for ID in $IDS; do
   P=${ID%%_*}
-  SCR=/tmp/benign_$ID; rm -rf $SCR; mkdir -p $SCR; rsync -a --exclude .git --exclude '*.egg-info' /repo/ $SCR/
+  SCR=/tmp/benign_$ID; rm -rf $SCR; mkdir -p $SCR; git -C /repo archive HEAD | tar -x -C $SCR    # HEAD, not the working tree (which an acceptance run may be patching)
   if ! (cd $SCR && patch -p1 -s < /verif/benign/$ID.diff); then echo "$ID PATCHFAIL"; rm -rf $SCR; continue; fi
   VERIF_REPO=$SCR ./check $P > .logs/benign/$ID.log 2>&1; R=$?
   rm -rf $SCR
